@@ -117,10 +117,25 @@ def emitOperand (fix : Bool) : Operand → List PyTok
     let a := t.filter (· ≠ '$')
     [.name (if a.contains ':' then nmR else nmC), .lpar, .str a, .rpar]
 
-/-- `.replace('_R_', '_REF_').replace('_C_', '_REF_')` at token level -/
+/-- `str.replace(pat, rep)`: non-overlapping, left to right (fuel = length of the text) -/
+def replaceAux (pat rep : List Char) : Nat → List Char → List Char
+  | 0, s => s
+  | _ + 1, [] => []
+  | n + 1, c :: r =>
+    if pat.isPrefixOf (c :: r) then rep ++ replaceAux pat rep n ((c :: r).drop pat.length)
+    else c :: replaceAux pat rep n r
+
+def replaceRC (s : List Char) : List Char :=
+  let s1 := replaceAux nmR nmREF s.length s
+  replaceAux nmC nmREF s1.length s1
+
+/-- `.replace('_R_', '_REF_').replace('_C_', '_REF_')` on the emitted text of the operands of a reference operator.
+    The code replaces in the TEXT, so the substring is also rewritten inside names and inside text literals
+    (`"_R_"` becomes `"_REF_"`); the model follows the code (reference operators are outside C02's grammar). -/
 def refify (ts : List PyTok) : List PyTok :=
   ts.map fun t => match t with
-    | .name s => if s = nmR ∨ s = nmC then .name nmREF else .name s
+    | .name s => .name (replaceRC s)
+    | .str s => .str (replaceRC s)
     | t => t
 
 /-! ### nodes -/
